@@ -1,6 +1,23 @@
 package main
 
-// selfResult summarises the checker self-validation of the thorough tier.
+import (
+	"encoding/json"
+	"fmt"
+	"os"
+	"os/exec"
+	"path/filepath"
+	"sort"
+	"strings"
+	"sync"
+)
+
+// Self-validation of the checker (thorough tier): every variant listed in
+// /verif/variants/EXPECT.json for the property is applied to a scratch copy of
+// the repository, analysed by a separate process of this binary and compared
+// with the expectation: a breaking variant must be reported (VIOLATION), an
+// equivalent (behaviour-preserving) variant must stay silent.  Nothing of gnmi
+// is executed: the variants are analysed, not run.
+
 type selfResult struct {
 	Variants int      `json:"variants"`
 	Caught   int      `json:"breaking_caught"`
@@ -9,4 +26,127 @@ type selfResult struct {
 	Lines    []string `json:"lines"`
 }
 
-func selfValidate(c *Ctx, verifDir, repo string) selfResult { return selfResult{} }
+type expectEntry struct {
+	Patch    string `json:"patch"`    // relative to /verif
+	Property string `json:"property"` // property whose check is run
+	Expect   string `json:"expect"`   // violation | silent
+	Rule     string `json:"rule,omitempty"`
+	Note     string `json:"note,omitempty"`
+}
+
+func selfValidate(c *Ctx, verifDir, repo string) selfResult {
+	res := selfResult{}
+	b, err := os.ReadFile(filepath.Join(verifDir, "variants", "EXPECT.json"))
+	if err != nil {
+		res.Lines = append(res.Lines, "no variants/EXPECT.json: "+err.Error())
+		return res
+	}
+	var all []expectEntry
+	if err := json.Unmarshal(b, &all); err != nil {
+		res.Broken++
+		res.Lines = append(res.Lines, "EXPECT.json: "+err.Error())
+		return res
+	}
+	var mine []expectEntry
+	for _, e := range all {
+		if e.Property == c.Prop {
+			mine = append(mine, e)
+		}
+	}
+	exe, _ := os.Executable()
+	type out struct {
+		e    expectEntry
+		line string
+		ok   bool
+	}
+	results := make([]out, len(mine))
+	sem := make(chan struct{}, 6)
+	var wg sync.WaitGroup
+	for i, e := range mine {
+		wg.Add(1)
+		go func(i int, e expectEntry) {
+			defer wg.Done()
+			sem <- struct{}{}
+			defer func() { <-sem }()
+			results[i] = out{e: e}
+			dir, err := os.MkdirTemp("", "gnmiverif.self.")
+			if err != nil {
+				results[i].line = e.Patch + ": " + err.Error()
+				return
+			}
+			defer os.RemoveAll(dir)
+			if o, err := exec.Command("rsync", "-a", "--exclude", ".git", repo+"/", dir+"/").CombinedOutput(); err != nil {
+				results[i].line = e.Patch + ": copy failed: " + string(o)
+				return
+			}
+			patch := filepath.Join(verifDir, e.Patch)
+			apply := func(p string) error {
+				cmd := exec.Command("patch", "-p1", "-s", "-i", p)
+				cmd.Dir = dir
+				_, err := cmd.CombinedOutput()
+				return err
+			}
+			dry := exec.Command("patch", "-p1", "-s", "--dry-run", "-i", patch)
+			dry.Dir = dir
+			if _, err := dry.CombinedOutput(); err != nil {
+				rb := filepath.Join(filepath.Dir(patch), "patch.rebased.diff")
+				if _, e2 := os.Stat(rb); e2 == nil {
+					patch = rb
+				}
+			}
+			if err := apply(patch); err != nil {
+				results[i].line = e.Patch + ": does not apply to the current tree (stale variant)"
+				return
+			}
+			vo := filepath.Join(dir, ".verif-out")
+			os.MkdirAll(vo, 0o755)
+			if kf, err := os.ReadFile(filepath.Join(verifDir, "known_findings.json")); err == nil {
+				os.WriteFile(filepath.Join(vo, "known_findings.json"), kf, 0o644)
+			}
+			cmd := exec.Command(exe, "-repo", dir, "-verif", vo, "-property", e.Property, "-tier", "quick")
+			o, _ := cmd.CombinedOutput()
+			txt := string(o)
+			viol := strings.Contains(txt, "VIOLATION property="+e.Property)
+			ruleOK := e.Rule == "" || strings.Contains(txt, e.Rule+" |")
+			switch e.Expect {
+			case "violation":
+				results[i].ok = viol && ruleOK
+			case "silent":
+				results[i].ok = !viol && cmd.ProcessState != nil && cmd.ProcessState.ExitCode() == 0
+			}
+			verdict := "silent"
+			if viol {
+				verdict = "reported"
+			}
+			results[i].line = fmt.Sprintf("%s: expected %s, checker %s", e.Patch, e.Expect, verdict)
+			if !results[i].ok {
+				// keep the first violation line for diagnosis
+				for _, l := range strings.Split(txt, "\n") {
+					if strings.Contains(l, "violated:") || strings.Contains(l, "undecided:") || strings.Contains(l, "LOAD-FAILURE") || strings.Contains(l, "PANIC") {
+						if len(l) > 300 {
+							l = l[:300]
+						}
+						results[i].line += " — " + strings.TrimSpace(l)
+						break
+					}
+				}
+			}
+		}(i, e)
+	}
+	wg.Wait()
+	sort.Slice(results, func(i, j int) bool { return results[i].e.Patch < results[j].e.Patch })
+	for _, r := range results {
+		res.Variants++
+		mark := "ok  "
+		if !r.ok {
+			res.Broken++
+			mark = "FAIL"
+		} else if r.e.Expect == "violation" {
+			res.Caught++
+		} else {
+			res.Silent++
+		}
+		res.Lines = append(res.Lines, mark+" "+r.line)
+	}
+	return res
+}
